@@ -213,12 +213,22 @@ Proof. destruct s; intros H; try congruence; repeat split; try discriminate; ref
 Lemma prefix_facts : forallb nopct mgr_prefix = true /\ forallb nonul mgr_prefix = true.
 Proof. split; vm_compute; reflexivity. Qed.
 
+Lemma internal_http_like e q : is_internal e q = true -> http_like (q_scheme q) = true.
+Proof.
+  unfold is_internal. intros H. apply andb_true_iff in H. destruct H as [H _].
+  apply andb_true_iff in H. destruct H as [H _]. apply andb_true_iff in H. destruct H as [_ H]. exact H.
+Qed.
+
+Lemma http_like_facts s : http_like s = true -> s <> SOther /\ allow_userinfo s = false.
+Proof. destruct s; intros H; try discriminate H; split; try discriminate; reflexivity. Qed.
+
 Lemma acl_covers e q :
-  is_internal e q = true -> for_cache_manager q = true ->
-  q_scheme q <> SOther -> userinfo_part q = [] -> host_ok (e_myhost e) ->
+  is_internal e q = true -> for_cache_manager q = true -> host_ok (e_myhost e) ->
   acl_manager q = true.
 Proof.
-  intros Hint Hfcm Hs Hui Hho.
+  intros Hint Hfcm Hho.
+  destruct (http_like_facts _ (internal_http_like e q Hint)) as [Hs Hau].
+  assert (Hui : userinfo_part q = []) by (unfold userinfo_part; now rewrite Hau).
   destruct (internal_host_ok e q Hint Hho) as [Hne Hhc].
   destruct (scheme_image_facts _ Hs) as (Hine & Hic & Hip & Hin).
   destruct prefix_facts as [Hpp Hpn].
@@ -262,29 +272,19 @@ Proof.
   destruct (access_allowed (acl_manager q) (e_local e) rules); cbn [negb] in H; [reflexivity|discriminate H].
 Qed.
 
-Definition no_userinfo (q : request) : Prop := allow_userinfo (q_scheme q) = false \/ q_login q = [].
-
-Lemma no_userinfo_part q : no_userinfo q -> userinfo_part q = [].
-Proof.
-  unfold no_userinfo, userinfo_part. intros [H|H]; [now rewrite H|]. rewrite H. cbn [rfc1738_unescape].
-  destruct (allow_userinfo (q_scheme q)); reflexivity.
-Qed.
-
 (* `http_access deny manager` as the first rule: no cache-manager answer of any kind *)
 Lemma deny_manager_blocks e menu pl rest q :
-  host_ok (e_myhost e) -> no_userinfo q ->
+  host_ok (e_myhost e) ->
   mgr_answer (handle e menu pl (mkRule false [AMgr] :: rest) q) = false.
 Proof.
-  intros Hho Hnu. destruct (mgr_answer (handle e menu pl (mkRule false [AMgr] :: rest) q)) eqn:E; [|reflexivity].
+  intros Hho. destruct (mgr_answer (handle e menu pl (mkRule false [AMgr] :: rest) q)) eqn:E; [|reflexivity].
   pose proof (answer_requires_access _ _ _ _ _ E) as Hacc.
   unfold handle in E.
   destruct (url_check_request (q_method q) (q_scheme q)) eqn:Eu; cbn [negb] in E; [|discriminate E].
   rewrite Hacc in E. cbn [negb] in E.
   destruct (is_internal e q) eqn:Ei; cbn [negb] in E; [|discriminate E].
   destruct (for_cache_manager q) eqn:Ef; cbn [negb] in E; [|discriminate E].
-  assert (Hs : q_scheme q <> SOther).
-  { intros Hs. rewrite Hs in Eu. destruct (q_method q); discriminate Eu. }
-  pose proof (acl_covers e q Ei Ef Hs (no_userinfo_part q Hnu) Hho) as Hm.
+  pose proof (acl_covers e q Ei Ef Hho) as Hm.
   unfold access_allowed in Hacc. cbn [eval_rules r_atoms r_allow forallb atom_holds] in Hacc.
   rewrite Hm in Hacc. cbn in Hacc. discriminate Hacc.
 Qed.
@@ -378,19 +378,33 @@ Proof.
   exists f, user. split; [reflexivity|]. exists sch, ws, txt. rewrite Ht in H5. repeat split; assumption.
 Qed.
 
+Lemma cstr_full (a : bytes) : lenN a = lenN (cstr a) -> a = cstr a.
+Proof.
+  unfold cstr. intros H. pose proof (span_app (fun c => negb (c =? 0)) a) as Happ.
+  destruct (span (fun c => negb (c =? 0)) a) as [u v]. cbn [fst snd] in *.
+  rewrite <- Happ in H. rewrite lenN_app in H. destruct v as [|y v]; [now rewrite app_nil_r in Happ|].
+  cbn [lenN] in H. lia.
+Qed.
+
+Lemma cstr_nonul (a : bytes) : forallb nonul a = true -> cstr a = a.
+Proof. intros H. rewrite <- (app_nil_r a) at 1. rewrite (cstr_app a [] H). apply app_nil_r. Qed.
+
 Lemma check_password_false pl a pw :
   check_password pl a pw = false ->
   match passwd_get pl (a_name a) with
   | None => a_pwreq a = false
-  | Some pwd => pwd <> kw_disable /\ (pwd = kw_none \/ (pw <> [] /\ pwd <> [] /\ cstr pw = cstr pwd))
+  | Some pwd => pwd <> kw_disable /\ (pwd = kw_none \/ (pw <> [] /\ pw = cstr pwd))
   end.
 Proof.
   unfold check_password. destruct (passwd_get pl (a_name a)) as [pwd|]; [|auto].
   destruct (list_eqb pwd kw_disable) eqn:E1; [discriminate|]. apply leqb_false in E1.
   destruct (list_eqb pwd kw_none) eqn:E2; [apply leqb_true in E2; auto|].
   destruct pw as [|p pw]; [discriminate|]. intros H. split; [exact E1|]. right.
+  apply orb_false_iff in H. destruct H as [Hlen H].
+  apply negb_false_iff, N.eqb_eq in Hlen.
   unfold string_ne in H. destruct pwd as [|d pwd]; [discriminate|].
-  apply negb_false_iff, leqb_true in H. repeat split; try discriminate. exact H.
+  apply negb_false_iff, leqb_true in H. split; [discriminate|].
+  rewrite <- H in Hlen. rewrite <- H. apply cstr_full, Hlen.
 Qed.
 
 Definition field_char (c : N) : bool := negb (memb c mgr_field_stop).
@@ -520,7 +534,7 @@ Lemma report_respects_passwd e menu pl rules q n :
      pe_passwd e0 <> kw_disable
      /\ (pe_passwd e0 = kw_none
          \/ exists f user pass, q_auth q = Some f /\ basic_credentials f user pass
-                                /\ pass <> [] /\ cstr pass = cstr (pe_passwd e0)))
+                                /\ pass <> [] /\ pass = cstr (pe_passwd e0)))
   /\ (uncovered pl n -> exists a, In a menu /\ a_name a = n /\ a_pwreq a = false).
 Proof.
   intros H Hlen. destruct (report_inv _ _ _ _ _ _ H) as (a & Hp & Hn & Hc & _).
@@ -528,7 +542,7 @@ Proof.
   destruct (answered_not_disabled_nor_hidden _ _ _ _ _ _ Ha Hlen) as [Hd Hh].
   split; [|exact Hh]. intros e0 Hf. split; [apply Hd, Hf|].
   apply check_password_false in Hc. rewrite Hn, (passwd_get_first _ _ _ Hf) in Hc.
-  destruct Hc as [_ [Hnone|(Hpw & _ & Heq)]]; [left; exact Hnone|right].
+  destruct Hc as [_ [Hnone|(Hpw & Heq)]]; [left; exact Hnone|right].
   destruct (supplied_password_spec _ _ eq_refl Hpw) as (f & user & Hq & Hb).
   exists f, user, (supplied_password (q_auth q)). repeat split; assumption.
 Qed.
@@ -583,11 +597,13 @@ Definition w_plain : request :=
 Lemma w_host_ok : host_ok (e_myhost w_env).
 Proof. split; [discriminate|reflexivity]. Qed.
 
+(* the former bypass (finding C61-manager-acl-ftp-userinfo, repaired by 6b03ef7): the ACL still does not match this URL,
+   but the request is no longer internal -- it goes to the ftp gateway like any ftp:// URL *)
 Lemma bypass_witness :
   host_ok (e_myhost w_env)
-  /\ is_internal w_env w_bypass = true /\ for_cache_manager w_bypass = true
+  /\ is_internal w_env w_bypass = false
   /\ acl_manager w_bypass = false
-  /\ handle w_env w_menu [] deny_manager_allow_all w_bypass = RReport s_menu
+  /\ handle w_env w_menu [] deny_manager_allow_all w_bypass = RForwarded
   /\ handle w_env w_menu [] deny_manager_allow_all w_plain = RDenied.
 Proof. split; [exact w_host_ok|]. repeat split; vm_compute; reflexivity. Qed.
 
@@ -605,9 +621,10 @@ Definition w_noauth : request :=
   mkReq MGet SHttp [] w_host 3128
         [47;115;113;117;105;100;45;105;110;116;101;114;110;97;108;45;109;103;114;47;105;110;102;111] None.
 
+(* the former finding C61-password-nul-suffix (repaired by 5479385): "secret" NUL "x" is challenged again *)
 Lemma nul_witness :
   first_covering w_pl s_info (mkPw s_secret [s_info])
-  /\ handle w_env w_menu w_pl [mkRule true [AAll]] w_nul = RReport s_info
+  /\ handle w_env w_menu w_pl [mkRule true [AAll]] w_nul = RAuthReq s_info
   /\ supplied_password (q_auth w_nul) = s_secret ++ [0; 120]
   /\ handle w_env w_menu w_pl [mkRule true [AAll]] w_good = RReport s_info
   /\ handle w_env w_menu w_pl [mkRule true [AAll]] w_noauth = RAuthReq s_info.
@@ -619,7 +636,7 @@ Qed.
 
 (* hypotheses of the main theorems are satisfiable, and the theorems are not vacuous *)
 Lemma examples :
-  path_ok w_good /\ no_userinfo w_plain /\ no_userinfo w_good
+  path_ok w_good
   /\ uncovered w_pl s_menu
   /\ handle w_env w_menu w_pl [mkRule true [AAll]] (mkReq MGet SHttp [] w_host 3128 (q_path w_bypass) None) = RReport s_menu
   /\ handle w_env w_menu [mkPw kw_disable [s_menu]] [mkRule true [AAll]] (mkReq MGet SHttp [] w_host 3128 (q_path w_bypass) None) = RNotFound
@@ -627,8 +644,6 @@ Lemma examples :
        (mkReq MGet SHttp [] w_host 3128 (mgr_prefix ++ s_shutdown) (q_auth w_good)) = RNotFound.
 Proof.
   repeat split; try (vm_compute; reflexivity).
-  - right; reflexivity.
-  - left; reflexivity.
   - constructor; [|constructor]. intros [H|H]; cbn in H; destruct H as [H|[]]; discriminate H.
 Qed.
 
@@ -736,47 +751,40 @@ Lemma access_implicit_default mgr local rules :
   access_allowed mgr local rules = match rev rules with r :: _ => negb (r_allow r) | [] => false end.
 Proof. intros; unfold access_allowed; rewrite eval_rules_none by assumption; reflexivity. Qed.
 
-Lemma acl_covers_partial e q :
-  host_ok (e_myhost e) -> no_userinfo q -> q_scheme q <> SOther ->
-  is_internal e q = true -> for_cache_manager q = true ->
+Lemma acl_covers_all e q :
+  host_ok (e_myhost e) -> is_internal e q = true -> for_cache_manager q = true ->
   acl_manager q = true.
-Proof. intros Hh Hn Hs Hi Hf. exact (acl_covers e q Hi Hf Hs (no_userinfo_part q Hn) Hh). Qed.
+Proof. intros Hh Hi Hf. exact (acl_covers e q Hi Hf Hh). Qed.
 
-Lemma deny_manager_refuted :
-  exists e menu pl rest q,
-    host_ok (e_myhost e)
-    /\ is_internal e q = true /\ for_cache_manager q = true /\ acl_manager q = false
-    /\ handle e menu pl (mkRule false [AMgr] :: rest) q = RReport s_menu.
+Lemma report_password_exact e menu pl rules q n e0 :
+  handle e menu pl rules q = RReport n -> path_ok q ->
+  first_covering pl n e0 -> pe_passwd e0 <> kw_none -> forallb nonul (pe_passwd e0) = true ->
+  supplied_password (q_auth q) = pe_passwd e0.
 Proof.
-  exists w_env, w_menu, [], [mkRule true [AAll]], w_bypass.
-  destruct bypass_witness as (H1 & H2 & H3 & H4 & H5 & _).
-  exact (conj H1 (conj H2 (conj H3 (conj H4 H5)))).
-Qed.
-
-Lemma password_exact_refuted :
-  exists e menu pl rules q n e0,
-    first_covering pl n e0 /\ pe_passwd e0 <> kw_none
-    /\ handle e menu pl rules q = RReport n
-    /\ supplied_password (q_auth q) <> pe_passwd e0.
-Proof.
-  exists w_env, w_menu, w_pl, [mkRule true [AAll]], w_nul, s_info, (mkPw s_secret [s_info]).
-  destruct nul_witness as (H1 & H2 & H3 & _). repeat split; try assumption; [discriminate|].
-  rewrite H3. discriminate.
+  intros H Hlen Hf Hnn Hnul. destruct (report_inv _ _ _ _ _ _ H) as (a & Hp & Hn & Hc & _).
+  apply check_password_false in Hc. rewrite Hn, (passwd_get_first _ _ _ Hf) in Hc.
+  destruct Hc as [_ [Hnone|(_ & Heq)]]; [contradiction|]. rewrite Heq. apply cstr_nonul, Hnul.
 Qed.
 
 Lemma ex_hypotheses :
-  host_ok (e_myhost w_env) /\ path_ok w_good /\ no_userinfo w_plain /\ no_userinfo w_good /\ uncovered w_pl s_menu.
-Proof. destruct examples as (H1 & H2 & H3 & H4 & _). exact (conj w_host_ok (conj H1 (conj H2 (conj H3 H4)))). Qed.
+  host_ok (e_myhost w_env) /\ path_ok w_good /\ uncovered w_pl s_menu
+  /\ first_covering w_pl s_info (mkPw s_secret [s_info]) /\ forallb nonul s_secret = true.
+Proof.
+  destruct examples as (H1 & H2 & _). destruct nul_witness as (H3 & _).
+  exact (conj w_host_ok (conj H1 (conj H2 (conj H3 eq_refl)))).
+Qed.
 
 Lemma ex_outcomes :
   handle w_env w_menu w_pl [mkRule true [AAll]] w_good = RReport s_info
   /\ handle w_env w_menu w_pl [mkRule true [AAll]] w_noauth = RAuthReq s_info
+  /\ handle w_env w_menu w_pl [mkRule true [AAll]] w_nul = RAuthReq s_info
   /\ handle w_env w_menu [] deny_manager_allow_all w_plain = RDenied
+  /\ handle w_env w_menu [] deny_manager_allow_all w_bypass = RForwarded
   /\ handle w_env w_menu [mkPw kw_disable [s_menu]] [mkRule true [AAll]]
        (mkReq MGet SHttp [] w_host 3128 (q_path w_bypass) None) = RNotFound
   /\ handle w_env w_menu [] [mkRule true [AAll]]
        (mkReq MGet SHttp [] w_host 3128 (mgr_prefix ++ s_shutdown) (q_auth w_good)) = RNotFound.
 Proof.
-  destruct nul_witness as (_ & _ & _ & H1 & H2). destruct bypass_witness as (_ & _ & _ & _ & _ & H3).
-  destruct examples as (_ & _ & _ & _ & _ & H4 & H5). repeat split; assumption.
+  destruct nul_witness as (_ & H0 & _ & H1 & H2). destruct bypass_witness as (_ & _ & _ & H3b & H3).
+  destruct examples as (_ & _ & _ & H4 & H5). repeat split; assumption.
 Qed.
